@@ -607,8 +607,9 @@ func enclosingFunc(file *ast.File, pos token.Pos) *ast.FuncDecl {
 }
 
 func trimStr(s string, n int) string {
-	if len(s) > n {
-		return s[:n] + "…"
+	r := []rune(s)
+	if len(r) > n {
+		return string(r[:n]) + "…"
 	}
 	return s
 }
